@@ -63,7 +63,8 @@ def _h_blocks(blocks, doc, xhtml):
         elif k == "pb":
             out.append("<hr/>" if xhtml else "<hr>")
         elif k == "img":
-            out.append(f'<p><img src="images/image{b["id"] + 1}.png" alt=""/></p>')
+            ext = (doc.get("_images") or [{}] * (b["id"] + 1))[b["id"]].get("ext", "png")
+            out.append(f'<p><img src="../images/image{b["id"] + 1}.{ext}" alt=""/></p>')
         else:
             raise ValueError(k)
     return "".join(out)
@@ -94,6 +95,7 @@ def render_mhtml(doc, *, cte="quoted-printable", **kw) -> bytes:
 def render_epub(doc, *, images=None, opts=None, **kw) -> bytes:
     opts = opts or {}
     chapters = []
+    doc = dict(doc, _images=images or [])
     for i, u in enumerate(doc["units"]):
         chapters.append((f"text/ch{i + 1}.xhtml", html_of_blocks(u["blocks"], doc, xhtml=True, title=u.get("name") or f"Chapter {i + 1}")))
     p = doc.get("props") or {}
